@@ -100,17 +100,33 @@ func checkTokens(mode, fn string, src []byte, start hcl.Pos, toks hclsyntax.Toke
 			break
 		}
 	}
+	// The stream is walked in order, so the first disagreement names its
+	// cause: a disagreement at a token start (the preceding token end agreed)
+	// was introduced by the gap before the token, one at a token end by the
+	// token's own content.
+	prevEnd = 0
 	for i, t := range toks {
+		s := t.Range.Start.Byte - start.Byte
 		for k, p := range []hcl.Pos{t.Range.Start, t.Range.End} {
 			which := []string{"start", "end"}[k]
+			cause := "within." + t.Type.String()
+			if k == 0 {
+				cause = "gap-spaces"
+				if bytes.IndexByte(src[prevEnd:s], '\t') >= 0 {
+					cause = "gap-with-tab"
+				} else if prevEnd == s {
+					cause = "no-gap-before." + t.Type.String()
+				}
+			}
 			off := p.Byte - start.Byte
 			if ix.LineDefined(off) && p.Line != ix.Line(off) {
-				return fail("line."+t.Type.String(), "token %d (%s %q) %s: line %d at byte %d, counting newlines gives %d", i, t.Type, t.Bytes, which, p.Line, p.Byte, ix.Line(off))
+				return fail("line."+cause, "token %d (%s %q) %s: line %d at byte %d, counting newlines gives %d", i, t.Type, t.Bytes, which, p.Line, p.Byte, ix.Line(off))
 			}
 			if colsOK && p.Column != ix.Col(off) {
-				return fail("column."+t.Type.String()+"."+which, "token %d (%s %q) %s: column %d at byte %d, counting grapheme clusters gives %d", i, t.Type, t.Bytes, which, p.Column, p.Byte, ix.Col(off))
+				return fail("column."+cause, "token %d (%s %q) %s: column %d at byte %d, counting grapheme clusters gives %d", i, t.Type, t.Bytes, which, p.Column, p.Byte, ix.Col(off))
 			}
 		}
+		prevEnd = t.Range.End.Byte - start.Byte
 	}
 	if !colsOK {
 		nLexNoCols.Add(1)
@@ -118,26 +134,57 @@ func checkTokens(mode, fn string, src []byte, start hcl.Pos, toks hclsyntax.Toke
 	return nil
 }
 
+// ixCache holds the reference position index of one buffer per start position.
+type ixCache struct {
+	src []byte
+	ix  [2]*refpos.Index
+}
+
+func (c *ixCache) get(si int) *refpos.Index {
+	if c.ix[si] == nil {
+		c.ix[si] = refpos.New(c.src, lexStarts[si].Line, lexStarts[si].Column)
+	}
+	return c.ix[si]
+}
+
 func judgeLex(d Data) engine.Outcome {
+	return judgeLexWith(d, &ixCache{src: d.Src})
+}
+
+func judgeLexWith(d Data, cache *ixCache) engine.Outcome {
 	fns, ok := lexModes[d.Mode]
 	if !ok {
 		return engine.Skip()
 	}
 	var sig strings.Builder
 	sig.WriteString(d.Mode)
-	for _, start := range lexStarts {
-		ix := refpos.New(d.Src, start.Line, start.Column)
+	for si, start := range lexStarts {
+		ix := cache.get(si)
 		for _, f := range fns {
+			if f.name == "LexExpression" && si != 0 {
+				continue // LexExpression is LexConfig by another name; one start position suffices
+			}
 			toks, _ := f.fn(d.Src, fname, start)
 			if o := checkTokens(d.Mode, f.name, d.Src, start, toks, ix); o != nil {
 				return *o
 			}
-			if start.Byte == 0 && f.name != "LexExpression" {
-				for _, t := range toks {
-					sig.WriteRune(rune(t.Type))
+			if si != 0 || f.name == "LexExpression" {
+				continue
+			}
+			for _, t := range toks {
+				sig.WriteRune(rune(t.Type))
+			}
+			last := toks[len(toks)-1].Range.End
+			fmt.Fprintf(&sig, "%d:%d", last.Line, last.Column)
+			if d.Mode == "normal" {
+				// The identifier-only scanning mode is observable only through
+				// ValidIdentifier ("could be a valid identifier in a native
+				// syntax expression"): it must say yes exactly when the normal
+				// mode reads the whole string as one identifier token.
+				single := len(toks) == 2 && toks[0].Type == hclsyntax.TokenIdent && len(toks[0].Bytes) == len(bytes.TrimPrefix(d.Src, bom)) && len(toks[0].Bytes) > 0
+				if got := hclsyntax.ValidIdentifier(string(d.Src)); got != single {
+					return engine.Fail("c14.lex.identonly.disagrees-with-normal-mode", "ValidIdentifier(%q) = %v but the normal mode reads it as %d tokens (first %v)", d.Src, got, len(toks), toks[0].Type)
 				}
-				last := toks[len(toks)-1].Range.End
-				fmt.Fprintf(&sig, "%d:%d", last.Line, last.Column)
 			}
 		}
 	}
